@@ -575,27 +575,20 @@ func oracleC14linux(c *Case) Verdict {
 // differ only in the line that tells where the rulesets differ gets the
 // signature of its analysed root cause.
 func oracleC16linux(c *Case) Verdict {
-	v := oracleC16(c)
-	if v.Status == Fail && strings.Contains(v.Msg, "iptables differs at ") {
-		a := tool.CompareStd(c.Files)
-		for i := 0; i < 40; i++ {
-			b := tool.CompareStd(c.Files)
-			if b.Stdout == a.Stdout {
-				continue
-			}
-			la, lb := strings.Split(a.Stdout, "\n"), strings.Split(b.Stdout, "\n")
-			if len(la) != len(lb) || a.Stderr != b.Stderr || a.Exit != b.Exit {
-				return v
-			}
-			for j := range la {
-				if la[j] != lb[j] && !(strings.HasPrefix(la[j], "iptables differs at ") && strings.HasPrefix(lb[j], "iptables differs at ")) {
-					return v
-				}
-			}
-			v.Sig = "linux:F35-diff-message-names-random-option"
+	v, a, b := oracleC16pair(c)
+	if v.Status != Fail || a == nil || b == nil {
+		return v
+	}
+	la, lb := strings.Split(a.Stdout, "\n"), strings.Split(b.Stdout, "\n")
+	if len(la) != len(lb) || a.Stderr != b.Stderr || a.Exit != b.Exit {
+		return v
+	}
+	for j := range la {
+		if la[j] != lb[j] && !(strings.HasPrefix(la[j], "iptables differs at ") && strings.HasPrefix(lb[j], "iptables differs at ")) {
 			return v
 		}
 	}
+	v.Sig = "linux:F35-diff-message-names-random-option"
 	return v
 }
 
